@@ -567,23 +567,118 @@ func ruleNotifyAll(c *Ctx, r *Reporter) {
 			"in root-only mode the returned watch is the transaction's root channel",
 			"in root-only mode (revision/graveyard/Map/Set trees) the per-key watch is not replaced by the root channel: callers get a nil channel")
 	}
-	// (6) lpm index: commit installs a fresh channel
+	// (6) lpm index: every commit installs a fresh channel and hands back the notifier that closes
+	// the old one. If either is made conditional on a flag of the index transaction, that flag
+	// must be set on every path that changes the trie (a replaced object changes query results too).
 	if fn := c.Func("statedb", "lpmIndexTxn", "commit"); fn != nil {
-		good := false
+		var stores []*ssa.Store
 		for _, ia := range allInstrs(fn) {
-			st, ok := ia.In.(*ssa.Store)
-			if !ok {
-				continue
-			}
-			if isFieldAddrOf(st.Addr, "lpmIndex", "watch") {
-				if _, ok := st.Val.(*ssa.MakeChan); ok {
-					good = true
-				}
+			if st, ok := ia.In.(*ssa.Store); ok && isFieldAddrOf(st.Addr, "lpmIndex", "watch") {
+				stores = append(stores, st)
 			}
 		}
-		r.checkP([]string{"C06"}, good, "statedb.(lpmIndexTxn).commit|fresh index channel", c.posStr(fn.Pos()),
-			"the committed LPM index gets a fresh watch channel (the old one is closed by notify)",
-			"the committed LPM index reuses the channel that notify() closes: every later query returns an already closed channel")
+		guard := "" // name of the lpmIndexTxn flag the channel replacement depends on
+		bad := ""
+		var badPos ssa.Instruction
+		for _, ret := range returnsOf(fn) {
+			// the last store to the new index' watch field on the way to this return
+			var last *ssa.Store
+			for _, st := range stores {
+				if !instrDominates(st, ret) {
+					if instrReaches(st, ret) {
+						bad, badPos = "the watch channel of the committed LPM index depends on the path taken in a way the analysis cannot follow", st
+					}
+					continue
+				}
+				if last == nil || instrDominates(last, st) {
+					last = st
+				}
+			}
+			fresh := false
+			if last != nil {
+				_, fresh = last.Val.(*ssa.MakeChan)
+			}
+			notifier := len(ret.Results) == 2 && !isNilConst(ret.Results[1])
+			if fresh && notifier {
+				continue
+			}
+			// conditional: find the flag
+			g := ""
+			for _, f := range factsAt(ret.Block()) {
+				cond, val := stripNot(f.Cond, f.Val)
+				if addr, ok := isLoad(cond); ok && !val {
+					if fa, ok := addr.(*ssa.FieldAddr); ok {
+						if tn, fname, ok := fieldOf(fa); ok && tn == "lpmIndexTxn" {
+							g = fname
+						}
+					}
+				}
+			}
+			if g == "" {
+				badPos = ret
+				if !fresh {
+					bad = "a commit of the LPM index keeps the previous watch channel (or installs none): queries on the new version wait on a channel that notify() closes/closed, or later changes never wake them"
+				} else {
+					bad = "a commit of the LPM index returns no notifier: the channel handed out with the previous version is never closed"
+				}
+				continue
+			}
+			guard = g
+		}
+		if bad == "" && guard != "" {
+			// flag discipline: every trie mutation in the index transaction is accompanied by flag=true
+			n := 0
+			for _, m := range c.Funcs {
+				if recvTypeName(m) != "lpmIndexTxn" || m.Package() == nil || shortPkg(m.Package().Pkg.Path()) != "statedb" {
+					continue
+				}
+				var sets []*ssa.Store
+				for _, ia := range allInstrs(m) {
+					if st, ok := ia.In.(*ssa.Store); ok && isFieldAddrOf(st.Addr, "lpmIndexTxn", guard) {
+						if cst, ok := st.Val.(*ssa.Const); ok && cst.Value != nil && cst.Value.String() == "true" {
+							sets = append(sets, st)
+						}
+					}
+				}
+				for _, ia := range allInstrs(m) {
+					call, ok := ia.In.(*ssa.Call)
+					if !ok {
+						continue
+					}
+					cn := c.calleeName(call)
+					if cn != "lpm.(Txn).Insert" && cn != "lpm.(Txn).Delete" {
+						continue
+					}
+					n++
+					marked := false
+					for _, st := range sets {
+						if instrDominates(st, call) || c.instrPostDominates(st, call) {
+							marked = true
+						}
+					}
+					if !marked && bad == "" {
+						bad = "the LPM index keeps its watch channel unless lpmIndexTxn." + guard + " is set, but this trie mutation can happen without setting it (e.g. an object replaced under the same prefix): queries on the index are not woken although their result changed"
+						badPos = call
+					}
+				}
+			}
+			if n == 0 && bad == "" {
+				bad, badPos = "no trie mutation found in lpmIndexTxn methods", nil
+			}
+		}
+		if bad == "" {
+			msg := "every commit gives the LPM index a fresh watch channel and returns the notifier that closes the old one"
+			if guard != "" {
+				msg = "the channel is replaced under lpmIndexTxn." + guard + ", which every trie mutation sets"
+			}
+			r.okP([]string{"C06"}, "statedb.(lpmIndexTxn).commit|fresh index channel", c.posStr(fn.Pos()), msg)
+		} else {
+			pos := c.posStr(fn.Pos())
+			if badPos != nil {
+				pos = c.posStr(instrPos(badPos))
+			}
+			r.badP([]string{"C06"}, "statedb.(lpmIndexTxn).commit|fresh index channel", pos, bad)
+		}
 	} else {
 		r.anchorMissing("statedb.(lpmIndexTxn).commit")
 	}
